@@ -24,14 +24,14 @@ structure Marker where
 
 def markerOf (f : Far) : Marker := { src := f.tunnelIP4Src, dst := f.tunnelIP4Dst, teid := f.tunnelTEID }
 
-def parsePdrs (cfg : Cfg) (seid fseidIP : Nat) (apps : List (String × List String)) :
+def parsePdrs (seid fseidIP : Nat) (apps : List (String × List String)) :
     List PdrIE → Option Pool.P → Except (PErr × Option Pool.P) (List Pdr × Option Pool.P)
   | [], pool => pure ([], pool)
   | ie :: rest, pool =>
-    match parsePDR cfg seid apps ie pool with
-    | .error e => throw (e, pool)
-    | .ok (p, pool) => do
-      let (ps, pool) ← parsePdrs cfg seid fseidIP apps rest pool
+    match parsePDR seid apps ie pool with
+    | (.error e, pool) => throw (e, pool)
+    | (.ok p, pool) => do
+      let (ps, pool) ← parsePdrs seid fseidIP apps rest pool
       pure ({ p with fseidIP := fseidIP } :: ps, pool)
 
 /-- `UpdatePDR` for each parsed PDR: replace the stored rule with the same ID; unknown IDs are skipped -/
@@ -79,14 +79,14 @@ def modify (cfg : Cfg) (w : World) (a : Nat) (r : ModReq) : ModOut :=
       | none => s0
     let fseidIP := match r.cpFseid with | some (_, ip) => ip | none => 0
     let rej (w : World) : ModOut := { world := w, reply := { cause := causeRejected, seid := s.rseid } }
-    match parsePdrs cfg r.seid fseidIP c.apps r.createPdrs w.pool with
+    match parsePdrs r.seid fseidIP c.apps r.createPdrs w.pool with
     | .error (_, pool) => rej { w with pool := pool }
     | .ok (cp, pool) =>
     match mapFars cfg r.seid fseidIP false r.createFars with
     | .error _ => rej { w with pool := pool }
     | .ok cf =>
     let cq := r.createQers.map fun ie => { parseQER r.seid ie with fseidIP := fseidIP }
-    match parsePdrs cfg r.seid fseidIP c.apps r.updatePdrs pool with
+    match parsePdrs r.seid fseidIP c.apps r.updatePdrs pool with
     | .error (_, pool) => rej { w with pool := pool }
     | .ok (up, pool) =>
     match mapFars cfg r.seid fseidIP true r.updateFars with
@@ -130,11 +130,26 @@ def modify (cfg : Cfg) (w : World) (a : Nat) (r : ModReq) : ModOut :=
 def assocSetup (w : World) (a : Nat) (nodeID : String) : World :=
   w.setConn a { w.conn a with remoteNode := nodeID }
 
-/-- `Shutdown`: every session of the association is deleted from the datapath and forgotten (addresses are NOT released) -/
+/-- one session leaves: its datapath entries are deleted, its address and TEIDs returned, its record dropped -/
+def dropSession (cfg : Cfg) (w : World) (s : Session) : World :=
+  let t := sendDel cfg w.tables s.pdrs s.fars s.qers
+  let (pool, g) := releaseRes w.pool w.teid s.lseid s.pdrs
+  { w with tables := t, pool := pool, teid := g }
+
+/-- `Shutdown`: every session of the association is removed and the association forgotten -/
 def shutdownConn (cfg : Cfg) (w : World) (a : Nat) : World :=
   let c := w.conn a
-  let t := c.sessions.foldl (fun t s => sendDel cfg t s.pdrs s.fars s.qers) w.tables
-  { w with tables := t, conns := w.conns.filter (·.1 ≠ a) }
+  let w := c.sessions.foldl (dropSession cfg) w
+  { w with conns := w.conns.filter (·.1 ≠ a) }
+
+/-- Session Report Response 'session context not found': the session is removed locally -/
+def reportContextNotFound (cfg : Cfg) (w : World) (a seid : Nat) : World :=
+  let c := w.conn a
+  match c.sessions.find? (·.lseid = seid) with
+  | none => w
+  | some s =>
+    let w := dropSession cfg w s
+    w.setConn a { c with sessions := c.sessions.filter (·.lseid ≠ seid) }
 
 /-- PFD management: an accepted request replaces the whole table; a rejected one leaves it as it was -/
 def pfdManagement (w : World) (a : Nat) (apps : List (String × List String)) (ok : Bool) : World :=
